@@ -161,6 +161,10 @@ def scenarios(ctx):
     out.append(Std('B-reconnects-A-busy', profile='pubsub', naddr=2, init=BOTH + (('setwin', 1, 2),), closing=False,
                    pub_qos=(2,), windows=(2,), connects=[(True, 0, 3)], reconnects=[(True, 0, 3)],
                    budgets=dict(tick=1), addr_budgets=[A2, B2]))
+    # B's rebuilt protocol loses its transport before connect() is called on it, while A is mid-exchange
+    out.append(Std('B-lost-before-connect-A-busy', profile='pubsub', naddr=2, init=BOTH, closing=False, pub_qos=(1, 2),
+                   connects=[(True, 0, 3)], reconnects=[(True, 0, 3)], lose_new=True, budgets=dict(tick=1),
+                   addr_budgets=[dict(pub=1, ack=1, tick=1), dict(pub=1, lose=2, rebuild=2, connect=1, connack=1, reconn2=1, tick=1)]))
     # S3: subscriber side: same inbound identifiers on both addresses, subscribe windows
     S = dict(sub=1, unsub=1 if not q else 0, ack=1, inpub=1, inrel=1, lose=1 if not q else 0, rebuild=1 if not q else 0,
              connect=1 if not q else 0, connack=1 if not q else 0, tick=1 if not q else 0)
